@@ -217,6 +217,8 @@ def shard(sh):
     run = Run(PROP, sh.get("tier", "quick"), sh["seed"], "exploration", RULE)
     rng = rng_for(sh["seed"], "c07", sh["sub"])
     for k in range(sh["n"]):
+        if run.enough():
+            break
         case = make_case(rng)
         kinds = set(op[0] for op in case["program"])
         run.case(common.sha12([case["stream"], case["program"], case["cuts"][:16]]), nontrivial=len(kinds) >= 2)
